@@ -15,6 +15,7 @@ func Harness_C03_records() {
 	verifAssert(r2 == r, "a function returning a record literal builds the same struct")
 	var same Rec = Rec{x, s} // positional: field order A, B
 	verifAssert(same == r, "fields are declared in source order")
+	verifAssert(useT(T{Tag: x}) == x, "a user type named T")
 	g := GRec[string]{V: s, N: x}
 	verifAssert(g.V == s && g.N == x, "generic record = generic struct")
 	n := Nest{R: r, L: []int{x}, T: frt.NewTuple2(x, s)}
